@@ -32,8 +32,11 @@
   style sheet: no token, no flag change (s_style_master_page: processelem := False).
   NOT modelled (`Err.unmodelled` when reached): s/e_custom_shape, s_draw_fill_image, s_draw_object, s_draw_object_ole.
   Python exceptions are `Err` values (KeyError for `attrs[k]`, ValueError for `int()`, IndexError for `pop` on an empty
-  `htmlstack` / `stackparent()`, AttributeError for `None.replace` and for collecting into a finished note body).
+  `htmlstack` / `stackparent()`, AttributeError for `None.replace` and a missing `_orgwfunc`).
   `int(x)` is modelled on non-empty ASCII digit strings only (anything else: ValueError).
+  Switching `self._wfunc` between `_wlines` and `collectnote` is modelled by swapping buffers: `St.out` is whatever
+  `_wfunc` appends to, `St.saved` holds `self.lines` while a note body is collected.  A note inside a note body and a
+  second note body in one note (where the Python code loses or corrupts `self.notebody`) give `Err.unmodelled`.
 -/
 import OdfModel.Xml.Escape
 import OdfModel.Generated.XhtmlDispatch
